@@ -41,6 +41,7 @@ type Exec struct {
 	boxInfo  map[string]boxRec
 	ctxPkg   *types.Package
 	defs     map[string]storeDef // heap version symbol -> its defining store
+	SpecModel map[string]string // refinement only: uninterpreted interface spec function -> the implementation's defined counterpart
 	mapKeyLen map[string]int64 // dom heaps of Go maps keyed by an integer array type -> array length
 	allocSyms map[string]bool
 	sliceBase map[string]string // slice symbol -> base term
